@@ -26,7 +26,7 @@ import os
 import re
 
 from rkstatic.x_linform import (Poly, Evaluator, implies_le, negate, show, show_rel, relation, upper_bound, lower_bound,
-                                small_model, atom_name)
+                                small_model, atom_name, poly_value)
 
 LEVEL = 'other'
 EXPLANATION = (
@@ -49,6 +49,25 @@ MEMCPY = {'memcpy', 'std::memcpy', 'memmove', 'std::memmove', '__builtin_memcpy'
 
 class Undecided(Exception):
     pass
+
+
+ALIGNUPS = {}      # align-up atoms -> (inner Poly, alignment)
+
+
+def derived_atoms(polys):
+    """evaluation functions for the align-up atoms occurring in the given Polys (for witness search)"""
+    out = {}
+    for p in polys:
+        for a in p.atoms():
+            if isinstance(a, tuple) and a[0] == 'alignup' and a in ALIGNUPS:
+                inner, al = ALIGNUPS[a]
+
+                def fn(env, inner=inner, al=al):
+                    v = poly_value(inner, env)
+                    return None if v is None else (v + al - 1) // al * al
+                fn.needs = tuple(inner.atoms())
+                out[a] = fn
+    return out
 
 
 UNSIGNED = {'unsigned long': 2 ** 64 - 1, 'unsigned long long': 2 ** 64 - 1, 'unsigned int': 2 ** 32 - 1,
@@ -438,6 +457,22 @@ class BufEngine:
             if isinstance(a, Poly) and isinstance(b, Poly):
                 return a + b if e['opcode'] == '+' else a - b
             return None
+        if k == 'BinaryOperator' and e.get('opcode') == '&':
+            # (x + a - 1) & ~(a - 1) with a power of two a: x rounded up to a multiple of a
+            l_, r_ = tu.kids(e)
+            for x_, m_ in ((l_, r_), (r_, l_)):
+                mv = self.const_of(m_, st)
+                xv = self.val(x_, st, d + 1)
+                if mv is None or not isinstance(xv, Poly):
+                    continue
+                a_ = (2 ** 64 - mv) if mv > 2 ** 63 else None
+                if a_ is None or a_ & (a_ - 1) or xv.t.get((), 0) != a_ - 1:
+                    continue
+                inner = xv - (a_ - 1)
+                atom = ('alignup', show(inner), a_)
+                ALIGNUPS[atom] = (inner, a_)
+                return Poly.atom(atom)
+            return None
         if k == 'UnaryOperator' and e.get('opcode') == '&':
             # &buffer->operator[](k), &(*buffer)[k], &buffer->at(k)
             x = tu.strip(tu.kids(e)[0], casts=True)
@@ -452,6 +487,29 @@ class BufEngine:
                         return ('ptr', 'buf', st.bufgen, o)
             return None
         return self.evaluator(st).ev(e)
+
+    def const_of(self, e, st, d=0):
+        """unsigned 64-bit value of a constant expression built from literals, sizeof, const locals, ~ - + *"""
+        tu = self.tu
+        x = tu.strip(e, casts=True)
+        if x is None or d > 8:
+            return None
+        cv = tu.sd(x).get('cv')
+        if cv is not None:
+            return int(cv) % (2 ** 64)
+        k = x.get('kind')
+        if k == 'UnaryOperator' and x.get('opcode') == '~':
+            v = self.const_of(tu.kids(x)[0], st, d + 1)
+            return None if v is None else (~v) % (2 ** 64)
+        if k == 'BinaryOperator' and x.get('opcode') in ('+', '-', '*'):
+            a, b = (self.const_of(y, st, d + 1) for y in tu.kids(x))
+            if a is None or b is None:
+                return None
+            return (a + b if x['opcode'] == '+' else a - b if x['opcode'] == '-' else a * b) % (2 ** 64)
+        v = self.val(x, st)
+        if isinstance(v, Poly) and v.const_value() is not None:
+            return v.const_value() % (2 ** 64)
+        return None
 
     # ---- transfer
     def lhs_target(self, e):
@@ -890,7 +948,8 @@ def check_access(ctx, tu, f, st, ev, rule, inst, keybase, what):
         ctx.undecided(rule, inst, '%s: path condition contains `%s`, which has no normal form' % (what, st.opaque[0]),
                       tu.loc(nid))
         return False
-    wit = small_model(list(st.cons) + [(p_, '<=') for p_ in st.inv] + [(-need + 1, '<=')])
+    wit = small_model(list(st.cons) + [(p_, '<=') for p_ in st.inv] + [(-need + 1, '<=')],
+                      derived=derived_atoms([c_[0] for c_ in st.cons] + [need]))
     if wit is None:
         ctx.undecided(rule, inst, '%s of [%s, %s): the path condition (%s) is not recognised as a bound by the buffer size %s'
                       % (what, show(off), show(off + ln), ' && '.join(show_rel(c) for c in st.cons) or 'true', show(bufsize)),
@@ -927,6 +986,20 @@ def check_transfer_fn(ctx, tu, f, mode):
     if mode != 'grow' and not has_cursor:
         ctx.broken('%s: member `%s` not found in %s' % (R1, cursor_name, f.get('rec')))
         return 0
+    if has_cursor:
+        # the cursor / byte counter accumulates size_t amounts: it must be as wide as the amounts added to it
+        cf = [fd for fd in rec['fields'] if fd['name'] == cursor_name][0]
+        sp_ct = [p_['ct'] for p_ in f['params'] if p_['ct'] in ('unsigned long', 'unsigned long long', 'unsigned int')]
+        wide = {'unsigned long': 8, 'unsigned long long': 8, 'long': 8, 'long long': 8, 'unsigned int': 4, 'int': 4,
+                'unsigned short': 2, 'short': 2, 'unsigned char': 1}
+        cw, pw = wide.get(cf['ct'].replace('const ', '')), wide.get(sp_ct[0]) if sp_ct else None
+        if cw is not None and pw is not None and cw < pw:
+            rid = 'R-C15-4' if mode == 'count' else R1
+            ctx.violation(rid, inst, 'member `%s` has type `%s` (%d bytes) but accumulates `%s` amounts (%d bytes): the sum is '
+                          'truncated modulo 2^%d, e.g. a message of 4 GiB or more is %s' %
+                          (cursor_name, cf['ct'], cw, sp_ct[0], pw, 8 * cw,
+                           'predicted too small by WriteSizeCalculator' if mode == 'count' else 'positioned wrongly'),
+                          tu.fn_loc(f), key='%s|%s|narrow-counter' % (rid, keybase))
     c0 = Poly.atom(('field', cursor_name + '0'))
     cap = Poly.atom(('sym', 'capacity'))
     st0 = St({cursor_name: c0} if has_cursor else {}, cap)
@@ -985,7 +1058,8 @@ def check_transfer_fn(ctx, tu, f, mode):
                 wit = None
                 if v is None and not st.opaque and not st.wrap:
                     # the path condition is fully modelled: is there a request that fits and still takes this path?
-                    wit = small_model(list(st.cons) + [(p_, '<=') for p_ in st.inv] + [(need0, '<=')])
+                    wit = small_model(list(st.cons) + [(p_, '<=') for p_ in st.inv] + [(need0, '<=')],
+                                      derived=derived_atoms([c_[0] for c_ in st.cons] + [need0]))
                 if wit is not None:
                     thr = [e for e in st.events if e[0] == 'throw']
                     ctx.violation(R1, label, 'throws under `%s` although the request fits (`%s <= 0`), e.g. for %s: a request that '
@@ -1013,9 +1087,19 @@ def check_transfer_fn(ctx, tu, f, mode):
         if has_cursor:
             cur = st.fields.get(cursor_name)
             if cur != c0 + L:
-                ctx.violation(R1 if mode != 'count' else 'R-C15-4', label, 'on return %s == %s, required %s (advance by exactly '
-                              'the transferred length)' % (cursor_name, show(cur), show(c0 + L)), tu.fn_loc(f),
-                              key='%s|%s|advance' % (R1 if mode != 'count' else 'R-C15-4', keybase), path=path_text(tu, g, st))
+                dv = derived_atoms([cur]) if isinstance(cur, Poly) else {}
+                wit = small_model(list(st.cons) + [(p_, '<=') for p_ in st.inv] + [(cur - c0 - L, '!=')], derived=dv) \
+                    if isinstance(cur, Poly) and dv and not st.opaque else ({} if not dv else None)
+                if wit is None:
+                    ctx.undecided(R1 if mode != 'count' else 'R-C15-4', label, 'on return %s == %s; whether that equals %s is not decided'
+                                  % (cursor_name, show(cur), show(c0 + L)), tu.fn_loc(f))
+                else:
+                    ctx.violation(R1 if mode != 'count' else 'R-C15-4', label, 'on return %s == %s, required %s (advance by exactly '
+                                  'the transferred length)%s' % (cursor_name, show(cur), show(c0 + L),
+                                  (', e.g. for ' + ', '.join('%s = %d' % (atom_name(a), v_) for a, v_ in
+                                                             sorted(wit.items(), key=lambda kv: repr(kv[0])) if a not in dv)) if wit else ''),
+                                  tu.fn_loc(f), key='%s|%s|advance' % (R1 if mode != 'count' else 'R-C15-4', keybase),
+                                  path=path_text(tu, g, st))
                 good = False
         if mode == 'count':
             if good:
@@ -1535,6 +1619,8 @@ def subst_items(items, root):
             out.append(('RESIZE', subst_path(it[1], root), subst_poly(it[2], root), it[3]))
         elif k == 'APPEND':
             out.append(('APPEND', subst_path(it[1], root), subst_poly(it[2], root), it[3]))
+        elif k == 'THROW':
+            out.append(it)
         elif k == 'REPEAT':
             out.append(('REPEAT', subst_poly(it[1], root), subst_path(it[2], root), subst_items(it[3], root), it[4]))
         elif k == 'COUNT':
@@ -1560,6 +1646,8 @@ def show_items(items):
             out.append('APPEND(%s,%s)' % (show_path(it[1]), show(it[2])))
         elif k == 'GROW':
             out.append('GROW(%s,%s)' % (show_path(it[1]), it[2]))
+        elif k == 'THROW':
+            out.append('THROW')
         elif k == 'REPEAT':
             out.append('REPEAT(%s,[%s])' % (show(it[1]), ' '.join(show_items(it[3]))))
         elif k == 'COUNT':
@@ -1576,6 +1664,7 @@ class SigBuilder:
         self.tu = tu
         self.memo = {}
         self.raw_types = {}     # type name -> (width, loc) of every raw object image
+        self.stream_queries = set()
 
     def is_stream_op(self, n):
         return n.get('kind') == 'CXXOperatorCallExpr' and self.tu.sd(n).get('q') in (NET + 'operator<<', NET + 'operator>>')
@@ -1705,6 +1794,21 @@ class SigBuilder:
         def call(n):
             return self.length(n, env)
 
+        x = tu.strip(e)
+        if x is not None and x.get('kind') == 'BinaryOperator' and x.get('opcode') in ('<', '>', '<=', '>='):
+            l_, r_ = (tu.strip(y) for y in tu.kids(x))
+            for a_, q_, flip in ((l_, r_, False), (r_, l_, True)):
+                if q_ is not None and q_.get('kind') == 'BinaryOperator' and q_.get('opcode') == '/':
+                    num, den = tu.kids(q_)
+                    kv = self.length(den, env)
+                    av, nv = self.length(a_, env), self.length(num, env)
+                    if kv is None or kv.const_value() is None or kv.const_value() < 1 or av is None or nv is None:
+                        return None
+                    op = x['opcode'] if not flip else {'<': '>', '>': '<', '<=': '>=', '>=': '<='}[x['opcode']]
+                    # a > floor(n / k)  <=>  a*k > n ;  a <= floor(n / k)  <=>  a*k <= n   (k >= 1, integers)
+                    if op in ('>', '<='):
+                        return [relation(av * kv.const_value(), op, nv)]
+                    return None
         return Evaluator(tu, var, None, call).rel(e)
 
     def length(self, e, env, sink=None):
@@ -1722,6 +1826,10 @@ class SigBuilder:
                 p = self.path_of(obj, env)
                 if p is not None:
                     return Poly.atom(('size', p))
+            if n.get('kind') == 'CXXMemberCallExpr' and not args and obj is not None and self.is_stream(obj, env) and \
+                    nm not in ('flush',) and tu.sd(n).get('ct', '') in ('unsigned long', 'unsigned long long'):
+                self.stream_queries.add(nm)
+                return Poly.atom(('streamq', nm))
             if n.get('kind') == 'CallExpr' and q in ('std::min', 'std::max') and len(args) == 2:
                 a_, b_ = self.length(args[0], env), self.length(args[1], env)
                 if a_ is not None and b_ is not None:
@@ -1981,6 +2089,8 @@ class SigBuilder:
             return [('IF', rel, then_items, else_items, tu.loc(n))]
         if k == 'CallExpr' and self.helper_callee(n, env) is not None:
             return self.inline_helper(n, env, self.helper_callee(n, env))[0]
+        if k == 'ExprWithCleanups' and tu.strip(n) is not None and tu.strip(n).get('kind') == 'CXXThrowExpr':
+            return [('THROW', tu.loc(n))]
         if k in ('CXXOperatorCallExpr', 'CXXMemberCallExpr', 'ExprWithCleanups'):
             return self.expr(tu.strip(n), env)
         if k in ('CompoundAssignOperator', 'BinaryOperator'):
@@ -1995,6 +2105,8 @@ class SigBuilder:
                 if n.get('opcode') == '+=':
                     return [('COUNT', v, tu.loc(n))]
                 raise Undecided('`%s` overwrites the byte counter' % tu.show(n))
+        if k == 'CXXThrowExpr' or (k == 'ExprWithCleanups' and tu.strip(n) is not None and tu.strip(n).get('kind') == 'CXXThrowExpr'):
+            return [('THROW', tu.loc(n))]
         raise Undecided('statement `%s` in a stream operator is not modelled' % k)
 
     def is_stream(self, e, env):
@@ -2146,6 +2258,36 @@ def grow_step(item, path):
     if m is None or k is None or not ((m >= 2 and k >= 0) or (m == 1 and k >= 1)):
         return None
     return show(g)
+
+
+def min_bytes(items, keep=()):
+    """a lower bound (Poly) of the bytes the items stand for: lengths that are not known yet (not in keep) count as 0"""
+    tot = Poly.const(0)
+    for it in items:
+        k = it[0]
+        if k == 'RAW':
+            tot = tot + it[2]
+        elif k == 'FIELD':
+            tot = tot + it[1]
+        elif k in ('DATA', 'COUNT'):
+            v = it[2] if k == 'DATA' else it[1]
+            for a in list(v.atoms()):
+                if isinstance(a, tuple) and a[0] == 'size' and a not in keep:
+                    v = v.subst(a, Poly.const(0))
+            tot = tot + v
+        elif k == 'REPEAT':
+            sub = min_bytes(it[3], keep)
+            cnt = it[1]
+            for a in list(sub.atoms()):
+                if isinstance(a, tuple) and a[0] == 'size':
+                    sub = sub.subst(a, Poly.const(0))
+            for a in list(cnt.atoms()):
+                if isinstance(a, tuple) and a[0] == 'size' and a not in keep:
+                    cnt = cnt.subst(a, Poly.const(0))
+            tot = tot + cnt * sub
+        elif k == 'IF':
+            return None
+    return tot
 
 
 def flatten(items):
@@ -2336,6 +2478,32 @@ def _pair_flat(W, R, problems, bind, sizes, aw, ar):
                 not (i < len(W) and W[i][0] == R[j][0]):
             j += 1
             continue
+        if j < len(R) and R[j][0] == 'THROW':
+            # the reader gives up here: legitimate only if the stream cannot hold the rest of the value
+            conds = [(rsub(q), op) for q, op in ar]
+            # a query of the stream position is only meaningful where it was made: keep the most recent one
+            sq = [c_ for c_ in conds if any(isinstance(a, tuple) and a[0] == 'streamq' for a in c_[0].atoms())]
+            conds = [c_ for c_ in conds if c_ not in sq] + sq[-1:]
+            rem_atoms = [a for c_ in conds for a in c_[0].atoms() if isinstance(a, tuple) and a[0] == 'streamq']
+            mb = min_bytes(W[i:], {a for c_ in conds for a in c_[0].atoms()})
+            if not rem_atoms or mb is None:
+                problems.append(('undecided-throw', 'the reader throws under `%s`, a condition that is not understood'
+                                 % ' && '.join(show_rel(c_) for c_ in conds), R[j][1]))
+                return
+            rem = Poly.atom(rem_atoms[0])
+            wit = small_model(conds + list(aw) + [(mb - rem, '<=')])
+            if wit is not None:
+                problems.append(('rejects-valid-stream', 'the reader throws when `%s` although the rest of the value can be as short as '
+                                 '%s bytes, e.g. for %s: a stream that holds the whole value is rejected'
+                                 % (' && '.join(show_rel(c_) for c_ in conds), show(mb),
+                                    ', '.join('%s = %d' % (atom_name(a), v_) for a, v_ in sorted(wit.items(), key=lambda kv: repr(kv[0])))),
+                                 R[j][1]))
+            elif not (len(conds) == 1 and conds[0][1] == '<=' and
+                      upper_bound((rem - mb + 1) - conds[0][0], [], 2 ** 63) is not None and
+                      upper_bound((rem - mb + 1) - conds[0][0], [], 2 ** 63) <= 0):
+                problems.append(('undecided-throw', 'the reader throws under `%s`; whether that implies that fewer than %s bytes are '
+                                 'left is not decided' % (' && '.join(show_rel(c_) for c_ in conds), show(mb)), R[j][1]))
+            return
         if i >= len(W) or j >= len(R):
             break
         w, r = W[i], R[j]
@@ -2399,7 +2567,8 @@ def _pair_flat(W, R, problems, bind, sizes, aw, ar):
                                   cond_text()), r[4]))
                 return
             n0 = len(problems)
-            pair(w[3], r[3], problems, dict(bind), dict(sizes), aw, [(rsub(q), op) for q, op in ar])
+            pair(w[3], r[3], problems, dict(bind), dict(sizes), aw,
+                 [(rsub(q), op) for q, op in ar if not any(isinstance(a, tuple) and a[0] == 'streamq' for a in q.atoms())])
             if len(problems) > n0:
                 return
         i += 1
@@ -2570,6 +2739,9 @@ def check_signatures(ctx, tu):
         wsig, rsig = ' '.join(show_items(flatten(W))), ' '.join(show_items(flatten(Rr)))
         if problems:
             for kind, text, loc in problems:
+                if kind.startswith('undecided'):
+                    ctx.undecided(R2, inst, '%s (writer: %s; reader: %s)' % (text, wsig, rsig), loc)
+                    continue
                 ctx.violation(R2, inst, '%s (writer: %s; reader: %s)' % (text, wsig, rsig), loc,
                               key='%s|%s|%s ~ %s|%s' % (R2, tu.fn_file(wf), pattern_sig(tu, wf), pattern_sig(tu, rf), kind))
         else:
@@ -2795,6 +2967,8 @@ def trivially_copyable_witness(ctx, tu, types):
 def run(ctx):
     ctx.assume('cursor + size does not wrap around (sizes below 2^63); the public members cursor/buffer are only changed '
                'by the analysed member functions; std::vector::resize preserves the existing prefix')
+    ctx.assume('a no-argument size query of the stream that a reader compares a length with (remaining()) is an upper bound of the '
+               'bytes that can still be read')
     ctx.assume('std::vector / std::string / the array wrappers store their elements contiguously (element-wise transfer of '
                'trivially copyable elements equals one block transfer)')
     units = ['rkcommon/networking/DataStreaming.cpp', 'drivers/c15_streams.cpp']
